@@ -151,6 +151,13 @@ macro_rules! digest {
             pub fn reset(&mut self) {
                 self.engine.reset(&$state);
             }
+
+            /// verification hook: preset the count of bytes processed so far (the length field of the padding
+            /// is derived from it)
+            #[cfg(feature = "verif-hooks")]
+            pub fn verif_set_processed_bytes(&mut self, n: u128) {
+                self.engine.processed_bytes = n as _;
+            }
         }
     };
 }
